@@ -1000,6 +1000,9 @@ func (fc *FuncCtx) rangeInit(fr *Frame, st *State, x *ssa.Range) {
 		ks := sortOf(u.Key())
 		fc.p.registerHeap(h, ArraySort(ks, SBool))
 		st.setH(h, constArray(ArraySort(ks, SBool), False))
+		// ghost counter: number of keys produced so far (= cardinality of the visited set)
+		fc.p.registerHeap(h+"#n", SInt)
+		st.setH(h+"#n", IntLit(0))
 		fr.regs[x] = Val{T: xv.T, Tup: nil, LV: &LVal{Kind: -1, Typ: u, Heap: h}}
 	case *types.Basic:
 		fr.regs[x] = Val{T: xv.T, LV: &LVal{Kind: -2, Typ: u}}
@@ -1093,6 +1096,19 @@ func (fc *FuncCtx) rangeNext(fr *Frame, st *State, x *ssa.Next) {
 		}
 		st.assume(Implies(Not(ok), Forall([]*Term{kk}, Implies(domk, Select(vis, kk)))))
 		st.setH(it.LV.Heap, Ite(ok, Store(vis, k, True), vis))
+		if fc.p.tableOfRef(it.T) == nil {
+			// cardinalities: cnt = |visited| (by construction of the ghost code) and len(m) = |dom(m)|. When every
+			// visited key is (still) a key of the map, a further key outside the visited set gives cnt < len(m),
+			// and an exhausted iteration (dom included in visited, above) gives cnt == len(m).
+			_, _, lh := fc.p.mapHeaps(mt)
+			cnt := st.H(fc.p, it.LV.Heap+"#n")
+			ln := Select(st.H(fc.p, lh), it.T)
+			k2 := BVar("mk", sortOf(mt.Key()))
+			sub := Forall([]*Term{k2}, Implies(Select(vis, k2), Select(Select(st.H(fc.p, d), it.T), k2)))
+			st.assume(Le(IntLit(0), cnt))
+			st.assume(Implies(And(Neq(it.T, IntLit(0)), sub), And(Implies(ok, Lt(cnt, ln)), Implies(Not(ok), Eq(cnt, ln)))))
+			st.setH(it.LV.Heap+"#n", Ite(ok, Add(cnt, IntLit(1)), cnt))
+		}
 	}
 	fr.regs[x] = Val{Tup: []Val{{T: ok}, {T: k}, {T: val}}}
 	fc.note("map range: keys are visited in an arbitrary order, each key of the domain exactly once (ghost visited set); the map must not be updated inside the loop")
